@@ -90,4 +90,9 @@ theorem callback_quiet (c : Cfg) (hq : Quiet c) (s : St) (cb : Cb) (args : List 
       · simp [he, h]
   · simp [hh]
 
+/-- while the run is still wanted, handleDisconnect is its body. -/
+theorem handleDisconnect_running (c : Cfg) (s : St) (e : AExn) (rc : Bool) (hk : s.keepRunning = true) :
+    handleDisconnect c s e rc = handleDisconnectBody c s e rc := by
+  simp [handleDisconnect, hk]
+
 end WS.Lemmas.App
